@@ -2,7 +2,7 @@
    ExtrOcamlBasic only; Z/positive/N/nat stay extracted inductives. No Extract Constant. *)
 Require Extraction.
 Require Import ExtrOcamlBasic.
-From NV Require Import Base.Result Base.Bytes Base.PyPrims Model.Pdu Model.DepDecode Model.T3Emu Model.Pax Model.Dispatch Model.SnepHdr.
+From NV Require Import Base.Result Base.Bytes Base.PyPrims Model.Pdu Model.DepDecode Model.T3Emu Model.Pax Model.Dispatch Model.SnepHdr Model.DepAny.
 Cd "../extract/ml".
 Extraction "c07.ml"
   Model.DepDecode.decode_frame Model.DepDecode.decode_frame_orig Model.DepDecode.rtox_value Model.DepDecode.rtox_value_orig
@@ -10,5 +10,6 @@ Extraction "c07.ml"
   Model.Pax.activate_gb Model.Pax.activate_gb_orig
   Model.Dispatch.receive Model.Dispatch.dispatch
   Model.SnepHdr.snep_serve Model.SnepHdr.client_step Model.SnepHdr.ho_serve Model.SnepHdr.hc_step
+  Model.DepAny.i_exchange Model.DepAny.t_exchange
   Model.Pdu.decode.
 Cd "../../coq".
